@@ -136,7 +136,7 @@ func init() {
 		ID:          "C40",
 		Explanation: "RIK: key discipline of internal/interval. Both collections keep their entries in an ordered map keyed by the entry's End; every Set(k, e) of an *Entry must store it under its own End (Set(e.End, e) or Set(k, &Entry{End: k})), and the End of an *Entry is never assigned after construction (splitting moves Start and creates new entries), so an entry in the tree never sits under a stale key.",
 		NotDecided:  "the interval arithmetic of Insert (which pieces are created, their bounds, the value lists and their aliasing), Get's result, the nesting classification: all value-level; only the key invariant those rely on is decided",
-		Rules:       []func(*World){rikIntervalKeys},
+		Rules:       []func(*World){rikIntervalKeys, rik2NonEmptyPieces},
 	})
 	register(&Property{
 		ID:          "C41",
